@@ -462,8 +462,92 @@ def sec_batch_average(rec, patches=None):
                     rec.query(f"{tag}/split-halves-partition-the-batch", [], z3.Or(*parts), key="C09/batch/not-the-count-weighted-mean", replay=replay_batch, twin=False)
 
 
+def replay_reuse(cex):
+    """installed library: a loader (corner-safe SubtomogramLoader at scale 1, MockLoader with a float32 template and order 3) used twice gives the same sub-tomograms, and its
+    average is the mean of what it loads; the caller's template and molecules are not modified"""
+    with load.real_modules():
+        from acryo import SubtomogramLoader, Molecules
+        from acryo.loader import MockLoader
+        from scipy.spatial.transform import Rotation
+
+        rng = np.random.default_rng(2)
+        bad = {}
+        tomo = rng.normal(size=(30, 30, 30)).astype(np.float32)
+        pos = rng.uniform(10, 20, size=(4, 3))
+        mole = Molecules(pos.copy(), Rotation.from_rotvec(rng.normal(size=(4, 3)) * 0.4))
+        for cs in (True, False):
+            ld = SubtomogramLoader(tomo, mole, order=1, scale=1.0, output_shape=(5, 5, 5), corner_safe=cs)
+            a1 = ld.asnumpy()
+            avg = ld.average()
+            a2 = ld.asnumpy()
+            if not np.allclose(a1, a2) or not np.allclose(avg, a1.mean(axis=0), atol=1e-5) or not np.allclose(ld.molecules.pos, pos):
+                bad[f"SubtomogramLoader(corner_safe={cs})"] = {"second_load_differs_by": float(np.abs(a1 - a2).max()), "average_vs_mean": float(np.abs(avg - a1.mean(axis=0)).max()),
+                                                                 "positions_moved_by": float(np.abs(np.asarray(ld.molecules.pos) - pos).max())}
+        tmpl = rng.normal(size=(7, 7, 7)).astype(np.float32)
+        t0 = tmpl.copy()
+        for order in (3, 1):
+            ml = MockLoader(tmpl, Molecules(rng.normal(size=(3, 3)) * 0.5, Rotation.from_rotvec(rng.normal(size=(3, 3)) * 0.3)), order=order)
+            b1 = ml.asnumpy()
+            avg = ml.average()
+            b2 = ml.asnumpy()
+            if not np.array_equal(tmpl, t0) or not np.allclose(b1, b2, atol=1e-6) or not np.allclose(avg, b1.mean(axis=0), atol=1e-5):
+                bad[f"MockLoader(order={order})"] = {"template_modified": not np.array_equal(tmpl, t0), "second_load_differs_by": float(np.abs(b1 - b2).max()), "average_vs_mean": float(np.abs(avg - b1.mean(axis=0)).max())}
+                tmpl[...] = t0
+        return len(bad) > 0, {"problems": bad}
+
+
+def sec_reuse(rec, patches=None):
+    """average / average_split load through the same loader object again and again: loading must not modify the loader, its molecules or the template it was given.
+    (a) SubtomogramLoader: C02's sampling section (corner_safe, scale symbolic incl. exactly 1) with its 'molecule-positions-not-modified' fact;
+    (b) MockLoader: the real construct_loading_tasks with a recording spline_filter / affine_transform: the caller's template is never the output buffer, two constructions agree"""
+    from .c02 import sec_sampling
+
+    sec_sampling(rec, order=1, corner_safe=True, free_axis=2, shape=(1, 2, 2), patches=patches)
+    L = load.load(["acryo.loader._mock"], overrides={"np": np}, patches=patches)
+    M = L["acryo.loader._mock"]
+    rec.encodes("acryo/loader/_mock.py:MockLoader.construct_loading_tasks (template handling)")
+    rec.assume("scipy's spline_filter / affine_transform are recorded: a call with output=<array> writes into that array (as scipy does)")
+    log = []
+
+    def sfilter(inp, order=3, mode="constant", output=np.float64, **kw):
+        log.append(("spline_filter", inp, output))
+        if isinstance(output, np.ndarray):
+            output[...] = np.asarray(inp) * 2 + 1  # stands for "the spline coefficients": a visible in-place change
+            return output
+        return (np.asarray(inp) * 2 + 1).astype(output)
+
+    M.spline_filter = sfilter
+
+    class XP:
+        name = "numpy"
+
+        def affine_transform(self, img, mtx, **kw):
+            log.append(("affine_transform", img, np.asarray(mtx).copy()))
+            return np.zeros(np.shape(img), dtype=np.float32)
+
+    from acryo import Molecules as RealMolecules
+
+    for order in (3, 1):
+        for dt in (np.float32, np.float64):
+            tmpl = np.arange(27, dtype=dt).reshape(3, 3, 3)
+            t0 = tmpl.copy()
+            ml = M.MockLoader(tmpl, RealMolecules(np.array([[0.5, 0.0, -0.5], [0.0, 0.25, 0.0]])), order=order)
+            snaps = []
+            for rep in range(2):
+                del log[:]
+                tasks = ml.construct_loading_tasks(backend=XP())
+                [t.compute() for t in tasks]
+                snaps.append([np.asarray(e[1]).copy() for e in log if e[0] == "affine_transform"])
+            tag = f"reuse/MockLoader[order={order},{np.dtype(dt).name}]"
+            ok1 = np.array_equal(tmpl, t0)
+            rec.fact(f"{tag}/caller's-template-not-modified", bool(ok1), key="C09/reuse/template-modified", detail={}, reproduced=True if ok1 else replay_reuse({})[0])
+            ok2 = len(snaps[0]) == len(snaps[1]) == 2 and all(np.array_equal(a, b) for a, b in zip(snaps[0], snaps[1]))
+            rec.fact(f"{tag}/second-construction-transforms-the-same-image", bool(ok2), key="C09/reuse/not-repeatable", detail={"n": [len(x) for x in snaps]}, reproduced=True if ok2 else replay_reuse({})[0])
+            tmpl[...] = t0
+
+
 def sections(tier):
-    S = [("seed", "checks.c09", "sec_seed", {}), ("group", "checks.c09", "sec_group", {}), ("batch-average", "checks.c09", "sec_batch_average", {})]
+    S = [("seed", "checks.c09", "sec_seed", {}), ("group", "checks.c09", "sec_group", {}), ("batch-average", "checks.c09", "sec_batch_average", {}), ("loader-reuse", "checks.c09", "sec_reuse", {})]
     for n in (1, 2, 3, 5):
         S.append((f"average-{n}", "checks.c09", "sec_average", {"n": n}))
     for n in (2, 3, 4) if quick(tier) else (2, 3, 4, 5, 6):
@@ -500,7 +584,7 @@ def run(tier, procs=None, only=None):
 
 
 def replay(data):
-    ok, detail = replay_split(4)(data.get("cex") or {})
+    ok, detail = (replay_reuse if "reuse" in data.get("key", "") or "molecules-modified" in data.get("key", "") else replay_split(4))(data.get("cex") or {})
     print("replay:", detail)
     print("REPRODUCED" if ok else "not reproduced")
     return 1 if ok else 0
